@@ -36,7 +36,8 @@ func tuples(k int, all bool, canon [][]string) [][]string {
 }
 
 func specC02(l *Loaded, tier string, seed int64) (*Spec, error) {
-	all := tier == "thorough"
+	all := true // all 5^k register-name tuples in both tiers (7 s); the thorough tier adds the second solver (run.sh)
+	_ = tier
 	canon3 := [][]string{{"t2", "t0", "t1"}, {"t0", "t0", "t1"}, {"t1", "t0", "t1"}, {"t2", "t0", "t0"}, {"t0", "t0", "t0"},
 		{"zero", "t0", "t1"}, {"t2", "zero", "t1"}, {"t2", "t0", "zero"}, {"ra", "t1", "t0"}}
 	canon2 := [][]string{{"t2", "t0"}, {"t0", "t0"}, {"zero", "t0"}, {"t2", "zero"}, {"ra", "t1"}, {"t1", "ra"}}
@@ -86,7 +87,7 @@ func specC02(l *Loaded, tier string, seed int64) (*Spec, error) {
 	jobs = append(jobs, c02ParseJobs("parse")...)
 	return &Spec{Jobs: jobs,
 		Rule: "one job per (mnemonic, register-name pattern over {zero,ra,t0,t1,t2}, rename-table on/off); inside a job the four register values, the immediate/offset, pc, the branch target and the loaded bytes are SMT variables, the real op.Run/ReadRegisters/WriteRegisters/MemoryRead/MemoryWrite are executed symbolically and compared with the RV32IM definition written in the harness",
-		Bounds: map[string]interface{}{"mnemonics": 45, "register_names": c02names, "patterns": map[string]interface{}{"quick": "canonical alias patterns (distinct, rd==rs1, rd==rs2, rs1==rs2, all equal, each operand zero, ra)", "thorough": "all 5^k name tuples"}[tier],
+		Bounds: map[string]interface{}{"mnemonics": 45, "register_names": c02names, "patterns": "all 5^k name tuples (both tiers)",
 			"operand_values": "all 2^32 per register, immediate, offset; pc and branch target any multiple of 4 in [0,2^20)", "shift_immediates": "0..31 (assumed, the assembler's contract)"},
 		Assumptions: []string{"shift immediates are in 0..31", "pc and label targets are multiples of 4 in [0, 2^20)", "the code is uniform in the register name except for zero and ra (only 5 of the 32 names are used)",
 			"division by zero must be reported as an error value (the reading C07 gives), both for div and rem", "jalr target is rs+imm (bit 0 not cleared: the simulator has no misaligned-pc notion; not demanded)"},
